@@ -507,6 +507,65 @@ def describe(case):
     return case
 
 
+# ------------------------------------------------------------ shrinking
+def _str_shrinks(t):
+    n = len(t)
+    if n == 0:
+        return
+    yield ''
+    k = n // 2
+    while k >= 1:
+        for i in range(0, n, k):
+            if 0 < len(t[:i] + t[i + k:]) < n:
+                yield t[:i] + t[i + k:]
+        if k == 1:
+            break
+        k //= 2
+    for i, c in enumerate(t):
+        if c not in '<$':
+            yield t[:i] + '<' + t[i + 1:]
+    for i, c in enumerate(t):
+        if c not in 'a<$' and not c.isascii():
+            yield t[:i] + 'a' + t[i + 1:]
+
+
+def shrinks(case):
+    if case.get('via') == 'router':
+        if case['accept'] not in (None, 'text/html'):
+            yield dict(case, accept='text/html')
+        for t in _str_shrinks(case['path']):
+            yield dict(case, path=t)
+        return
+    for f in ('body_template', 'comment', 'explanation', 'detail'):
+        if case[f] is not None:
+            yield dict(case, **{f: None})
+    if case['headers']:
+        yield dict(case, headers=[])
+        for i in range(len(case['headers'])):
+            yield dict(case, headers=case['headers'][:i] + case['headers'][i + 1:])
+    base_keys = [k for k, v in BASE_ENV]
+    extra = [kv for kv in case['environ'] if kv[0] not in base_keys]
+    for i, kv in enumerate(case['environ']):
+        if kv[0] not in base_keys:
+            yield dict(case, environ=case['environ'][:i] + case['environ'][i + 1:])
+    if case['cls'] not in ('HTTPNotFound', 'HTTPFound', 'HTTPMethodNotAllowed'):
+        info = _table()['classes'][case['cls']]
+        yield dict(case, cls='HTTPFound' if info['move'] else 'HTTPNotFound')
+    for f in ('detail', 'comment', 'explanation', 'location', 'body_template'):
+        if case[f]:
+            for t in _str_shrinks(case[f]):
+                yield dict(case, **{f: t})
+    for i, kv in enumerate(case['environ']):
+        if kv[0] not in ('SERVER_NAME', 'SERVER_PORT', 'wsgi.url_scheme') and kv[1]:
+            for t in _str_shrinks(kv[1]):
+                if kv[0] == 'REQUEST_METHOD' and t in ('', 'HEAD'):
+                    continue
+                yield dict(case, environ=case['environ'][:i] + [[kv[0], t]] + case['environ'][i + 1:])
+    for i, kv in enumerate(case['headers']):
+        for t in _str_shrinks(kv[1]):
+            yield dict(case, headers=case['headers'][:i] + [[kv[0], t]] + case['headers'][i + 1:])
+
+
 NASTY = ['<script>alert(1)</script>', '${br}', '$$', '${detail}', '$', '"\'<>&', '€\U0001d11e', '\x00\n\x7f', MARK,
          '${html_comment}${explanation}', 'a<b', '--><b>', '$status ${body}']
 
